@@ -24,7 +24,7 @@ from casadi import integrator, Function, MX, hcat, vertcat, vcat, linspace, vecc
 import casadi as ca
 from .direct_method import DirectMethod
 from .splines import BSplineBasis, BSpline
-from .casadi_helpers import reinterpret_expr, HashOrderedDict, HashDict, is_numeric
+from .casadi_helpers import reinterpret_expr, HashOrderedDict, HashDict, is_numeric, is_same_expr
 from numpy import nan, inf
 import numpy as np
 from collections import defaultdict
@@ -1040,7 +1040,7 @@ class SamplingMethod(DirectMethod):
                 opti.set_initial(target, ca.repmat(value,1,target.shape[1]), cache_advanced=True)
             for k in list(range(self.N))+[-1]:
                 target = self.eval_at_control(stage, var, k)
-                if k==-1 and is_equal(target, self.eval_at_control(stage, var, self.N-1)):
+                if k==-1 and is_same_expr(target, self.eval_at_control(stage, var, self.N-1)):
                     continue # quantity of the last control interval: keep the value of its start time, not that of tf
                 value_k = value
                 if target.numel()*(self.N)==value.numel() or target.numel()*(self.N+1)==value.numel():
